@@ -263,7 +263,7 @@ def element_cases(els):
         if ws:
             qs.append(q_vec(el, ws + [float(xsf.xray_wavelength(35.0))], byw=True))
         stats["vector_points"] += 2 * len(vec) + len(ws) + 1
-        if k < (2 if TIER == "quick" else 8):
+        if k < (1 if TIER == "quick" else 8):
             long = [x for x in np.linspace(0.009, 31.0, n + 3).tolist() if not in_window(x, wins)]
             qs.append(q_vec(el, long))
             stats["vector_points"] += len(long)
